@@ -69,9 +69,21 @@ def oil_sweep(args):
     meta = {"what": f"oil T={T} API={api} gas_gravity={gg} GOR_i={gor}", "T": T, "api": api, "gg": gg, "gor": gor,
             "pb": pb, "tpc": tpc, "ppc": ppc}
     points = []
-    for p, side in _pressures(pb):
+    plist = list(_pressures(pb))
+    # the derivative routine is scalar; should it accept a whole table (here in depletion order, starting above the bubble point),
+    # every element is the derivative at that element
+    table = np.array([p for p, _s in plist], dtype=float)[::-1].copy()
+    try:
+        arr = np.asarray(oil.dgor_dpressure_Standing(T, table, api, gg, gor), dtype=float)[::-1]
+        if arr.shape != table.shape:
+            arr = None
+    except Exception:  # noqa: BLE001  (not array-capable: nothing to judge)
+        arr = None
+    for j, (p, side) in enumerate(plist):
         # hand-coded derivative of R_s and AD of the parent
         dgor = float(oil.dgor_dpressure_Standing(T, p, api, gg, gor))
+        if arr is not None and not (arr[j] == dgor or rel15(float(arr[j]), dgor) == 0):
+            dgor = float(arr[j])   # the table's answer is judged instead
         rs, drs_ad = derivative(lambda x: oil.solution_gor_Standing(T, x, api, gg, gor), p)
         # hand-coded dBo_b/dR at R = R_s(p) and AD of the parent
         rs_pub = float(oil.solution_gor_Standing(T, p, api, gg, gor))
